@@ -7,6 +7,7 @@
 #include <fenv.h>
 #include <setjmp.h>
 #include <signal.h>
+#include <sys/time.h>
 #include <unistd.h>
 #include <xmmintrin.h>
 
@@ -451,8 +452,14 @@ namespace xsv
         bool current_valid = false;
         unsigned char last_out[16] = { 0 };
 
+        // C14 run by a driver of another property: only "the call did not return" (crash / no return) is reported, values are not judged
+        bool termination_only = false;
+        uint64_t call_serial = 0; // bumped by the watchdog's view of progress (see install_crash_handlers)
+
         void add_violation(const Violation& v, bool replace = true)
         {
+            if (termination_only && v.why.compare(0, 6, "crash:") != 0 && v.why.compare(0, 10, "no return:") != 0)
+                return;
             auto it = viol_index.find(v.key());
             if (it == viol_index.end())
             {
@@ -559,8 +566,48 @@ namespace xsv
         }
         _exit(3);
     }
+    // A call that does not return (C14): the process CPU-time timer fires every kHangSeconds; when two consecutive firings see
+    // the same shim call still executing (same execution count, current_valid), that call has used at least kHangSeconds of CPU
+    // time -- about 10^6 times what any call needs -- and is reported like a crash: the record of the executing case becomes a
+    // candidate, the worker exits, and the replay (which hangs the same way and is stopped the same way) confirms it.
+    // CPU time, not wall-clock time: load on the machine cannot fire it.
+    constexpr int kHangSeconds = 10;
+    inline void hang_handler(int)
+    {
+        static uint64_t last_exec = ~0ull;
+        static int same = 0;
+        Context* c = g_ctx();
+        if (!c)
+            return;
+        if (c->current_valid && c->st.executions == last_exec)
+            ++same;
+        else
+            same = 0;
+        last_exec = c->st.executions;
+        if (same >= 1)
+        {
+            Violation v = c->current;
+            v.why = "no return: the call was still executing after " + std::to_string(kHangSeconds) + " s of CPU time (running time not bounded by a constant)";
+            c->termination_only = false;
+            c->add_violation(v);
+            c->write_out();
+            _exit(3);
+        }
+    }
     inline void install_crash_handlers()
     {
+        {
+            struct sigaction sh;
+            memset(&sh, 0, sizeof sh);
+            sh.sa_handler = hang_handler;
+            sh.sa_flags = SA_RESTART;
+            sigaction(SIGVTALRM, &sh, nullptr);
+            struct itimerval it;
+            it.it_interval.tv_sec = kHangSeconds;
+            it.it_interval.tv_usec = 0;
+            it.it_value = it.it_interval;
+            setitimer(ITIMER_VIRTUAL, &it, nullptr);
+        }
         static char stack[1 << 16];
         stack_t ss;
         ss.ss_sp = stack;
